@@ -23,5 +23,49 @@ def setup():
   common.setup()
 
 
+EXPECTED_PROBES += ['consecutive_executes', 'overlapping_execute_refused']
+
+
 def run_one(tape):
-  return common.run_with(tape, PROF, [oracles.c09])
+  import threading
+  from simkit import core
+  from workloads import bodies
+  executes = tape.weighted([(5, 1), (3, 2), (1, 3)], 'executes')
+  overlap = tape.chance(250, 'overlap')
+  ov = {}
+  if overlap:
+    ov['event'] = tape.draw(14, 'ov_event')
+    ov['off'] = tape.draw(tape.pick([1, 6, 40, 400], 'ov_cls'), 'ov_off')
+
+  def extra(sim, ctx, test, threads):
+    if not overlap:
+      return
+    gate = core.Gate()
+    th = threading.Thread(target=bodies.overlapper, args=(ctx, test, gate, None), name='overlapper')
+    th.daemon = True
+    th.start()
+    threads.append(('o', th))
+    cnt = {'n': 0, 'armed': False}
+    prev = sim.on_event
+
+    def on_event(rec):
+      if prev is not None:
+        prev(rec)
+      if cnt['armed']:
+        return
+      if not cnt.get('running'):
+        # only once the first execute() has started its executor: before that the
+        # "overlapping" call would simply be the first run
+        if rec[3] == 'thread_start' and rec[5] == 'TestExecutorThread':
+          cnt['running'] = True
+        return
+      if rec[3].startswith(('body_', 'plug_', 'callback', 'exec_call', 'diag', 'test_diag', 'enter')):
+        if cnt['n'] == ov['event']:
+          cnt['armed'] = True
+          sim.at_step(sim.steps + 1 + ov['off'], lambda frame: gate.open())
+        cnt['n'] += 1
+
+    sim.on_event = on_event
+    ctx.overlap_gate = gate
+
+  return common.run_with(tape, PROF, [oracles.c09], executes=executes, extra_threads=extra)
